@@ -2,10 +2,14 @@ package props
 
 // C13 — I/O failures are never hidden; no temporary files remain.
 //
-// Input        x <conc> <chunk> <autoClear> <autoClean> <i|s> <ops> <sched> <fault>
-//              fault = - or <point>:<n>: the n-th execution (from 0) of tempfile | encode | sync |
-//              seek | fdecode | pdecode | close | remove fails (the hook at that point returns an
-//              error which the code treats as the error of that operation)
+// Input        x <conc> <chunk> <autoClear> <autoClean> <i|s> <ops> <sched> <fault> [<opts>]
+//              fault = - or <point>:<n>(+<point>:<n>)*: a list of faults armed one after the other;
+//              the armed one fires at the n-th execution (from 0) of tempfile | encode | sync |
+//              seek | fdecode | pdecode | close | remove counted from the moment it became armed
+//              (start of the run / firing of its predecessor); the hook at that point returns an
+//              error which the code treats as the error of that operation
+//              ops may end with u: the caller's last call is CleanUp (abandoned sorter)
+//              opts = r: the concurrent caller, too, recovers with Clear after a reported error
 // Observation  <flags> <status> <disk> <dir> <dirAfterCleanUp> <out>*      (see morass_ctl.go)
 
 import (
@@ -22,6 +26,42 @@ var c13Points = []string{"tempfile", "encode", "sync", "seek", "fdecode", "pdeco
 
 func c13Line(conc bool, c int, ac, aclean bool, ty string, ops []string, sched []int, fault string) string {
 	return fmt.Sprintf("x %s %d %s %s %s %s %s %s", hx.B(conc), c, hx.B(ac), hx.B(aclean), ty, strings.Join(ops, ","), hx.Ints(sched), fault)
+}
+
+func c13LineR(conc bool, c int, ac, aclean bool, ty string, ops []string, sched []int, fault string) string {
+	return c13Line(conc, c, ac, aclean, ty, ops, sched, fault) + " r"
+}
+
+// c13SchedF walks the fault-aware simulator: policy 0 = a spawned writer runs to its end at once
+// (so every writer has ended when an error is reported and when the caller recovers with Clear),
+// 1 = the caller runs until it blocks, then the writers, 2 = random.  ok = false when a Clear
+// after a reported error would run while a writer is alive (the model is not tied to the code
+// there: notes/C13.md).
+func c13SchedF(g *hx.Gen, s *simS, policy int) (sched []int, ok bool) {
+	for steps := 0; steps < 900; steps++ {
+		var en []int
+		for a := 0; a <= len(s.ws); a++ {
+			if s.clone().step(a) {
+				en = append(en, a)
+			}
+		}
+		if len(en) == 0 {
+			break
+		}
+		a := en[0]
+		switch policy {
+		case 0:
+			if en[0] == 0 && len(en) > 1 {
+				a = en[1]
+			}
+		case 1:
+		default:
+			a = en[g.Intn(len(en))]
+		}
+		s.step(a)
+		sched = append(sched, a)
+	}
+	return sched, !s.clearedAlive
 }
 
 func c13Exec(input string) string {
@@ -105,6 +145,8 @@ func c13Gen(g *hx.Gen) {
 		ops []string
 	}
 	var wls []wl
+	c13Recovery(g)
+	c13Abandon(g)
 	distinct := func(ty string, n, pulls int, clear bool, ops []string) []string {
 		// distinct keys: which file is exhausted first (and so the residue) is then determined
 		base := g.Intn(50)
@@ -154,8 +196,11 @@ func c13Gen(g *hx.Gen) {
 	// (2) (fault, ordering) pairs in concurrent mode: random walks, random single fault
 	n := g.Scale(250, 20000)
 	for k := 0; k < n && !g.Done(); k++ {
-		c := g.Pick(1, 2, 2, 3)
+		c := g.Pick(1, 2, 2, 3, 1, 2, 3, g.Pick(5, 6, 7, 10))
 		cnt := g.Range(1, 4)*c + g.Pick(0, 1, c-1)
+		if c > 4 {
+			cnt = g.Range(1, 2)*c + g.Pick(0, 1, c-1)
+		}
 		ty := "i"
 		if g.Chance(0.5) {
 			ty = "s"
@@ -184,7 +229,7 @@ func c13Gen(g *hx.Gen) {
 	// (3) residue of the temporary directory after fault-free histories, both modes
 	n = g.Scale(400, 30000)
 	for k := 0; k < n && !g.Done(); k++ {
-		c := g.Pick(1, 2, 3, 4)
+		c := g.Pick(1, 2, 3, 4, 1, 2, 3, 4, g.Pick(5, 6, 7, 10))
 		ty := "i"
 		if g.Chance(0.3) {
 			ty = "s"
@@ -212,6 +257,220 @@ func c13Gen(g *hx.Gen) {
 			ops = append(ops[:i:i], append([]string{"x"}, ops[i:]...)...)
 		}
 		g.Case(c13Line(g.Chance(0.5), c, ac, aclean, ty, ops, nil, "-"))
+	}
+}
+
+// c13Count: how often each fault point is executed by a fault-free run of ops (sequential).
+func c13Counts(c int, ops []string) map[string]int {
+	n := map[string]int{}
+	// count through a private fault list that never fires: one probe per point
+	for _, pt := range c13Points {
+		t := newSimF(false, c, false, ops, pt+":1000000", false)
+		for steps := 0; steps < 5000; steps++ {
+			moved := false
+			for a := len(t.ws); a >= 0; a-- {
+				if t.step(a) {
+					moved = true
+					break
+				}
+			}
+			if !moved {
+				break
+			}
+		}
+		n[pt] = 1000000 - t.faults[0].n
+	}
+	return n
+}
+
+// c13Recovery: (4) two faults.  The first fires in the first cycle and is reported; the caller
+// makes no call until the Clear that closes that cycle; the second fault is every I/O operation
+// of the next cycle in turn (its count starts when the first has fired: no temp-file / Encode /
+// Sync / Seek / Decode operation is executed between that moment and the end of the Clear).
+// Sequential mode, and concurrent mode ("r": the caller recovers like the sequential one) under
+// schedules in which every writer of the failed cycle has ended before the Clear.
+func c13Recovery(g *hx.Gen) {
+	type rw struct {
+		c      int
+		first  []string // ops of the first cycle (ends with c)
+		second []string // ops of the second cycle
+		ty     string
+	}
+	mk := func(ty string, c, n1, n2 int, clear2 bool) rw {
+		cyc := func(n, pulls int, clear bool) []string {
+			var ops []string
+			base := g.Intn(40)
+			for _, i := range g.Perm(n) {
+				if ty == "s" {
+					ops = append(ops, fmt.Sprintf("p%d:%d", base+3*i, g.Intn(3)))
+				} else {
+					ops = append(ops, fmt.Sprintf("p%d", base+3*i))
+				}
+			}
+			ops = append(ops, "f")
+			for i := 0; i < pulls; i++ {
+				ops = append(ops, "l")
+			}
+			if clear {
+				ops = append(ops, "c")
+			}
+			return ops
+		}
+		return rw{c, cyc(n1, n1+1, true), cyc(n2, n2+1, clear2), ty}
+	}
+	rws := []rw{mk("i", 2, 5, 5, true), mk("s", 1, 2, 3, false), mk("i", 3, 7, 4, true)}
+	if g.Thorough() {
+		rws = append(rws, mk("s", 2, 4, 7, true), mk("i", 5, 11, 6, false))
+	}
+	for wi, w := range rws {
+		ops := append(append([]string(nil), w.first...), w.second...)
+		if wi == 0 {
+			// a third cycle: the sorter is used on after the second recovery, too
+			ops = append(ops, "p7", "p3", "p5", "f", "l", "l", "l", "l")
+		}
+		n1 := c13Counts(w.c, w.first)
+		n2 := c13Counts(w.c, w.second)
+		for _, p1 := range c13Points {
+			// first fault: the first, a middle and the last execution of p1 in the first cycle
+			ks := map[int]bool{0: true, n1[p1] / 2: true, n1[p1] - 1: true}
+			for k1 := 0; k1 < n1[p1]; k1++ {
+				if !ks[k1] && !(g.Thorough() && wi == 0) {
+					continue
+				}
+				for _, p2 := range c13Points {
+					for k2 := 0; k2 < n2[p2] && !g.Done(); k2++ {
+						fault := fmt.Sprintf("%s:%d+%s:%d", p1, k1, p2, k2)
+						ac := (k1+k2)%3 == 2
+						g.Case(c13Line(false, w.c, ac, false, w.ty, ops, nil, fault))
+						// concurrent mode: one in three (every one in the thorough tier)
+						if !g.Thorough() && (k1+k2+wi)%3 != 0 {
+							continue
+						}
+						pol := 0
+						if g.Chance(0.3) {
+							pol = 2
+						}
+						sim := newSimF(true, w.c, ac, ops, fault, true)
+						if sched, ok := c13SchedF(g, sim, pol); ok {
+							g.Case(c13LineR(true, w.c, ac, false, w.ty, ops, sched, fault))
+						} else {
+							sim = newSimF(true, w.c, ac, ops, fault, true)
+							sched, _ := c13SchedF(g, sim, 0)
+							g.Case(c13LineR(true, w.c, ac, false, w.ty, ops, sched, fault))
+						}
+					}
+				}
+			}
+		}
+	}
+	// random histories of 2..4 cycles with two or three faults anywhere, sequential mode
+	n := g.Scale(150, 6000)
+	for k := 0; k < n && !g.Done(); k++ {
+		c := g.Pick(1, 2, 2, 3, 5)
+		ty := "i"
+		if g.Chance(0.4) {
+			ty = "s"
+		}
+		ac := g.Chance(0.3)
+		var ops []string
+		cycles := g.Range(2, 4)
+		total := 0
+		for cy := 0; cy < cycles; cy++ {
+			cnt := g.Range(1, 3)*c + g.Pick(0, 1, c-1)
+			pulls := cnt + 1
+			if g.Chance(0.2) {
+				pulls = g.Intn(cnt + 1)
+			}
+			ops = c11Cycle(g, ops, c, ty, cnt, pulls, true, g.Pick(4, 50))
+			total += cnt
+		}
+		nf := g.Pick(2, 2, 3)
+		var fs []string
+		for i := 0; i < nf; i++ {
+			fs = append(fs, fmt.Sprintf("%s:%d", c13Points[g.Intn(len(c13Points))], g.Intn(total/cycles+1)))
+		}
+		g.Case(c13Line(false, c, ac, false, ty, ops, nil, strings.Join(fs, "+")))
+	}
+}
+
+// c13Abandon: (5) the caller abandons the sort with CleanUp (ops end with u) - after some pushes,
+// in the middle of a history, or reacting to an error that Push or Finalise reported - while
+// chunk writers are in flight: held before write.recv (so before they create their temporary
+// file), after having created it, or anywhere.  Concurrent mode, forced schedules: the caller
+// runs to the end of its CleanUp while the chosen writers are held, then every writer runs to
+// its end.  Observation: the listing of the directory when everything has stopped.
+func c13Abandon(g *hx.Gen) {
+	n := g.Scale(140, 4000)
+	for k := 0; k < n && !g.Done(); k++ {
+		c := g.Pick(1, 2, 2, 3, 4)
+		ty := "i"
+		if g.Chance(0.3) {
+			ty = "s"
+		}
+		var ops []string
+		shape := k % 4
+		if shape == 3 {
+			shape = g.Intn(3)
+		}
+		fault := "-"
+		switch shape {
+		case 0: // some pushes, then CleanUp: the last chunk(s) are with the writers
+			cnt := g.Range(1, 3)*c + g.Pick(1, 1, c)
+			ops = c11Cycle(g, nil, c, ty, cnt, 0, false, 50)
+			ops = ops[:len(ops)-1] // no Finalise
+		case 1: // a whole cycle (cleared), then pushes of the next one, then CleanUp
+			cnt := g.Range(1, 2)*c + g.Pick(0, 1)
+			ops = c11Cycle(g, nil, c, ty, cnt, g.Intn(cnt+2), true, 50)
+			cnt = g.Range(1, 3)*c + g.Pick(1, c)
+			ops = c11Cycle(g, ops, c, ty, cnt, 0, false, 50)
+			ops = ops[:len(ops)-1]
+		case 2: // a writer fails, Push (or Finalise) reports it, the caller reacts with CleanUp
+			cnt := g.Range(2, 4)*c + g.Pick(0, 1, c)
+			ops = c11Cycle(g, nil, c, ty, cnt, cnt+1, false, 50)
+			fault = fmt.Sprintf("%s:%d", []string{"tempfile", "encode", "sync"}[g.Intn(3)], g.Intn(2))
+		}
+		ops = append(ops, "u")
+		s := newSimF(true, c, false, ops, fault, false)
+		var sched []int
+		// hold: 0 = writers never move before CleanUp (held before write.recv: no file yet),
+		// 1 = every writer creates its file and is then held, 2 = random
+		hold := g.Pick(0, 0, 1, 2)
+		callerDone := func() bool { return s.pc == 0 && s.ip >= len(s.prog) }
+		for steps := 0; steps < 600 && !callerDone(); steps++ {
+			var en []int
+			for a := 0; a <= len(s.ws); a++ {
+				if s.clone().step(a) {
+					en = append(en, a)
+				}
+			}
+			if len(en) == 0 {
+				break
+			}
+			// hold 0: when the caller is blocked (both buffers are with writers) the oldest
+			// writer moves on
+			a := en[0]
+			switch hold {
+			case 1:
+				for _, e := range en {
+					if e > 0 && s.ws[e-1].pc == 0 {
+						a = e // let it receive and create its file, no further
+						break
+					}
+				}
+			default:
+				a = en[g.Intn(len(en))]
+			}
+			s.step(a)
+			sched = append(sched, a)
+		}
+		// the writers run to their end (a writer whose TempFile fails needs fewer blocks: the
+		// surplus entries are flagged x on both sides)
+		for a := 1; a <= len(s.ws); a++ {
+			for i := 0; i < c+5; i++ {
+				sched = append(sched, a)
+			}
+		}
+		g.Case(c13Line(true, c, false, false, ty, ops, sched, fault))
 	}
 }
 
